@@ -101,14 +101,18 @@ pub fn any_label_memory() -> Option<Label> {
 }
 
 /// Arbitrary encapsulator re-use state under the representation invariant (DESIGN 3.7):
-/// current <= max; !activated => max == 0 && current == 0; memory None / 3-byte / non-zero 6-byte.
+/// current <= max; !activated => max == 0 && current == 0 && memory empty;
+/// memory None / 3-byte / non-zero 6-byte.  (C15's step harnesses show that `new`
+/// establishes this invariant and every public operation preserves it.)
 pub fn any_enc_state() -> (bool, u8, u8, Option<Label>) {
     let act: bool = kani::any();
     let max: u8 = kani::any();
     let cur: u8 = kani::any();
     kani::assume(cur <= max);
     kani::assume(act || max == 0);
-    (act, max, cur, any_label_memory())
+    let last = any_label_memory();
+    kani::assume(act || last.is_none());
+    (act, max, cur, last)
 }
 
 /// CRC calculator returning a fixed (symbolic) value: no loop over the PDU.
